@@ -97,6 +97,18 @@ class BasicDSG(DSG):
             removed_edges |= derived_edges
             removed_nodes |= derived_nodes
 
+        # Also remove nodes in cycles that cannot be reached from any of the start nodes (they have no floating node)
+        reachable_nodes = set()
+        next_nodes = list(start_nodes)
+        while len(next_nodes) > 0:
+            node = next_nodes.pop()
+            if node in reachable_nodes:
+                continue
+            reachable_nodes.add(node)
+            next_nodes += [edge[1] for edge in iter_out_edges(graph, node)
+                           if get_edge_type(edge) in {EdgeType.DERIVES, EdgeType.CONNECTS}]
+        removed_nodes |= {node for node in graph.nodes if node not in reachable_nodes}
+
         if len(removed_edges) > 0 or len(removed_nodes) > 0:
             dsg = dsg.get_for_adjusted(removed_edges=removed_edges, removed_nodes=removed_nodes)
 
